@@ -57,6 +57,30 @@ class VecL:
         self.items = list(items or [])
 
 
+class Arr:
+    """a built-in array of integers (elements of `esize` bytes, host little-endian in memory)"""
+
+    def __init__(self, items, esize=4, signed=False):
+        self.items = list(items)
+        self.esize = esize
+        self.signed = signed
+
+
+class View:
+    """a pointer to memory reinterpreted as elements of `esize` bytes in `order` ('l'/'b')"""
+
+    def __init__(self, base, off, esize, order, signed=False):
+        self.base, self.off, self.esize, self.order, self.signed = base, off, esize, order, signed
+
+
+class SW:
+    """phosg::StringWriter at specification level: a growing byte string (its accessor table and
+    byte orders are decided by C01/C03)"""
+
+    def __init__(self):
+        self.s = Str()
+
+
 class MapL:
     """a std::map / std::unordered_map with string keys, held as a python dict (insertion order kept)"""
 
@@ -308,6 +332,107 @@ class PEval:
                             self._records.setdefault(e['name'], e.get('tagUsed'))
         return self._records.get(nm)
 
+    @staticmethod
+    def elem_info(t):
+        """(size, order, signed) of an integral / phosg endian-wrapper element type"""
+        t = (t or '').replace('const ', '').replace('phosg::', '').strip()
+        m = re.match(r'^(be|le|re)_(u?)int(\d+)_t$', t)
+        if m:
+            return int(m.group(3)) // 8, ('b' if m.group(1) in ('be', 're') else 'l'), m.group(2) != 'u'
+        m = re.match(r'^(big|little|reverse|same)_endian<(.+?)(?:,.*)?>$', t) or re.match(r'^converted_endian<(.+?), *(.+?), *(\w+)>$', t)
+        if m and m.re.pattern.startswith('^(big'):
+            ii = int_type_info(m.group(2).strip())
+            if ii:
+                return ii[0] // 8, ('b' if m.group(1) in ('big', 'reverse') else 'l'), ii[1]
+        if m and m.re.pattern.startswith('^converted'):
+            ii = int_type_info(m.group(1).strip())
+            if ii:
+                return ii[0] // 8, ('b' if 'bswap' in m.group(3) else 'l'), ii[1]
+        ii = int_type_info(t)
+        if ii and ii[0] >= 8:
+            return ii[0] // 8, 'l', ii[1]
+        return None
+
+    def mem_bytes(self, v, n):
+        """n bytes starting at the address a pointer value designates"""
+        if isinstance(v, Lit):
+            data = v.data if isinstance(v.data, (bytes, bytearray)) else None
+            if data is None:
+                raise Undecided('bytes of a non-byte constant array')
+            if v.off < 0 or v.off + n > len(data) + 1:
+                raise Fault('read of %d bytes at offset %d of a %d-byte constant' % (n, v.off, len(data)))
+            return (bytes(data) + b'\0')[v.off:v.off + n]
+        if isinstance(v, tuple) and v and v[0] == 'bufptr':
+            if v[2] < 0 or v[2] + n > len(v[1].b) + 1:
+                raise Fault('read of %d bytes at offset %d of a %d-byte buffer' % (n, v[2], len(v[1].b)))
+            return (bytes(v[1].b) + b'\0')[v[2]:v[2] + n]
+        if isinstance(v, Str):
+            if n > len(v.b) + 1:
+                raise Fault('read of %d bytes from a %d-byte buffer' % (n, len(v.b)))
+            return (bytes(v.b) + b'\0')[:n]
+        if isinstance(v, View):
+            return self.mem_bytes(self.shift_ptr(v.base, v.off), n)
+        if isinstance(v, Arr):
+            raw = b''.join((x & ((1 << (8 * v.esize)) - 1)).to_bytes(v.esize, 'little') for x in v.items)
+            if n > len(raw):
+                raise Fault('read of %d bytes from a %d-byte array' % (n, len(raw)))
+            return raw[:n]
+        if isinstance(v, tuple) and v and v[0] == 'scalar':
+            raw = (v[1] & ((1 << (8 * v[2])) - 1)).to_bytes(v[2], 'big' if v[3] == 'b' else 'little')
+            if n > len(raw):
+                raise Fault('read of %d bytes from a %d-byte object' % (n, len(raw)))
+            return raw[:n]
+        raise Undecided('bytes behind this pointer')
+
+    @staticmethod
+    def shift_ptr(v, k):
+        if isinstance(v, Lit):
+            return Lit(v.data, v.off + k)
+        if isinstance(v, tuple) and v and v[0] == 'bufptr':
+            return ('bufptr', v[1], v[2] + k)
+        if isinstance(v, Str):
+            return ('bufptr', v, k)
+        raise Undecided('pointer arithmetic on this value')
+
+    def addr_bytes_source(self, n, env, depth):
+        """value designating the bytes an address expression points at (for memcpy sources)"""
+        n0 = strip(n)
+        while n0 is not None and n0.get('kind') in ('ImplicitCastExpr', 'CStyleCastExpr', 'CXXStaticCastExpr', 'CXXReinterpretCastExpr', 'ParenExpr') and kids(n0):
+            n0 = strip(kids(n0)[0])
+        if n0 is not None and n0.get('kind') == 'UnaryOperator' and n0.get('opcode') == '&':
+            e = strip(kids(n0)[0])
+            if e.get('kind') == 'DeclRefExpr':
+                ei = self.elem_info(dtype(e))
+                v = self.ev(e, env, depth)
+                if ei and isinstance(v, int):
+                    return ('scalar', v, ei[0], ei[1])
+                if isinstance(v, (Arr, Str, Rec)):
+                    return v
+        return self.ev(n, env, depth)
+
+    def store_bytes(self, dst_n, data, env, depth):
+        """memcpy-style store of `data` at the address dst_n designates"""
+        tgt = self.buf_target(dst_n, env, depth)
+        if tgt is not None:
+            buf, off = tgt
+            if off < 0 or off + len(data) > len(buf.b):
+                raise Fault('store of %d bytes at offset %d of a %d-byte buffer' % (len(data), off, len(buf.b)))
+            buf.b[off:off + len(data)] = data
+            return
+        v = self.ev(dst_n, env, depth)
+        if isinstance(v, Arr):
+            if len(data) > len(v.items) * v.esize:
+                raise Fault('store of %d bytes into a %d-byte array' % (len(data), len(v.items) * v.esize))
+            if len(data) % v.esize:
+                raise Undecided('partial element store')
+            for i in range(len(data) // v.esize):
+                x = int.from_bytes(data[i * v.esize:(i + 1) * v.esize], 'little')
+                if v.signed and x >> (8 * v.esize - 1):
+                    x -= 1 << (8 * v.esize)
+                v.items[i] = x
+            return
+        raise Undecided('store through this pointer')
+
     def buf_target(self, n, env, depth):
         """(Str, offset) designated by a writable buffer argument: X.data(), X.data() + k, &X[k]"""
         n = strip(n)
@@ -330,6 +455,11 @@ class PEval:
             if e.get('kind') == 'CXXOperatorCallExpr' and call_name(e) == 'operator[]':
                 o = self.ev(kids(e)[1], env, depth)
                 i = self.ev(kids(e)[2], env, depth)
+                if isinstance(o, Str) and isinstance(i, int):
+                    return o, i
+            if e.get('kind') == 'ArraySubscriptExpr':
+                o = self.ev(kids(e)[0], env, depth)
+                i = self.ev(kids(e)[1], env, depth)
                 if isinstance(o, Str) and isinstance(i, int):
                     return o, i
         if k == 'DeclRefExpr':
@@ -457,6 +587,15 @@ class PEval:
         if k in ('ImplicitCastExpr', 'CStyleCastExpr', 'CXXStaticCastExpr', 'CXXFunctionalCastExpr', 'CXXReinterpretCastExpr', 'CXXConstCastExpr'):
             ck = n.get('castKind')
             v = self.ev(kids(n)[0], env, depth)
+            if ck == 'BitCast' and k != 'ImplicitCastExpr' and (qtype(n) or '').rstrip().endswith('*'):
+                et = (dtype(n) or qtype(n) or '').rstrip()[:-1].strip()
+                ei_ = self.elem_info(et)
+                if isinstance(v, View):
+                    v = self.shift_ptr(v.base, v.off)
+                if ei_ and ei_[0] > 1 and (isinstance(v, (Lit, Str)) or (isinstance(v, tuple) and v and v[0] == 'bufptr')):
+                    return View(v, 0, ei_[0], ei_[1], ei_[2])
+                if ei_ and ei_[0] == 1 and isinstance(v, View):
+                    return v
             if ck in ('IntegralCast', 'IntegralToBoolean', 'PointerToBoolean'):
                 if ck == 'PointerToBoolean':
                     return 1 if v is not None else 0
@@ -549,6 +688,22 @@ class PEval:
                 base, idx = idx, base
             if not isinstance(idx, int):
                 raise Undecided('non-constant subscript')
+            if isinstance(base, Arr):
+                if 0 <= idx < len(base.items):
+                    return base.items[idx]
+                raise Fault('index %d is outside the %d-element array' % (idx, len(base.items)))
+            if isinstance(base, View):
+                raw = self.mem_bytes(self.shift_ptr(base.base, base.off + idx * base.esize), base.esize)
+                x = int.from_bytes(raw, 'big' if base.order == 'b' else 'little')
+                if base.signed and x >> (8 * base.esize - 1):
+                    x -= 1 << (8 * base.esize)
+                return x
+            if isinstance(base, tuple) and base and base[0] == 'bufptr':
+                if 0 <= base[2] + idx < len(base[1].b):
+                    return self.wrap(base[1].b[base[2] + idx], t)
+                if base[2] + idx == len(base[1].b):
+                    return 0
+                raise Fault('read at offset %d of a %d-byte buffer' % (base[2] + idx, len(base[1].b)))
             if isinstance(base, Vec):
                 # the object viewed as an array of its (equally typed, in-order) components
                 if 0 <= idx < len(base.fields):
@@ -696,6 +851,16 @@ class PEval:
             if isinstance(base, Str) and isinstance(idx, int) and 0 <= idx < len(base.b) and isinstance(val, int):
                 base.b[idx] = val & 0xFF
                 return
+            if isinstance(base, Str) and isinstance(idx, int) and isinstance(val, int):
+                raise Fault('store at index %d of a %d-byte buffer' % (idx, len(base.b)))
+            if isinstance(base, Arr) and isinstance(idx, int) and isinstance(val, int):
+                if not 0 <= idx < len(base.items):
+                    raise Fault('store at index %d of a %d-element array' % (idx, len(base.items)))
+                x = val & ((1 << (8 * base.esize)) - 1)
+                if base.signed and x >> (8 * base.esize - 1):
+                    x -= 1 << (8 * base.esize)
+                base.items[idx] = x
+                return
         raise Undecided('assignment to `%s`' % src_text(target, 40))
 
     def binop(self, n, env, depth):
@@ -740,6 +905,13 @@ class PEval:
             return v
         a = self.ev(a_n, env, depth)
         b = self.ev(b_n, env, depth)
+        if op in ('+', '-') and isinstance(b, int) and ((isinstance(a, tuple) and a and a[0] == 'bufptr') or isinstance(a, View)):
+            k_ = b if op == '+' else -b
+            if isinstance(a, View):
+                return View(a.base, a.off + k_ * a.esize, a.esize, a.order, a.signed)
+            return ('bufptr', a[1], a[2] + k_)
+        if op == '+' and isinstance(a, int) and isinstance(b, tuple) and b and b[0] == 'bufptr':
+            return ('bufptr', b[1], b[2] + a)
         if isinstance(a, Lit) or isinstance(b, Lit) or a is None or b is None:
             if op in ('==', '!='):
                 same = (a is None and b is None) or (isinstance(a, Lit) and isinstance(b, Lit) and a.data is b.data and a.off == b.off)
@@ -930,6 +1102,44 @@ class PEval:
                     return self.str_method(obj, name, args, env, depth, n)
                 if isinstance(obj, Heap) and name in ('get', 'release'):
                     return obj
+                if isinstance(obj, SW):
+                    vals = [self.ev(a, env, depth) for a in args if a.get('kind') != 'CXXDefaultArgExpr']
+                    mput = re.match(r'^(p?)put_([us])(\d+)([bl]?)$', name)
+                    if mput:
+                        pos = vals[0] if mput.group(1) else None
+                        val = vals[-1]
+                        nb = int(mput.group(3)) // 8
+                        if not isinstance(val, int) or (pos is not None and not isinstance(pos, int)):
+                            raise Undecided('StringWriter::%s operand' % name)
+                        raw = (val & ((1 << (8 * nb)) - 1)).to_bytes(nb, 'big' if mput.group(4) == 'b' else 'little')
+                        if pos is None:
+                            obj.s.b += raw
+                        else:
+                            if pos + nb > len(obj.s.b):
+                                obj.s.b += bytes(pos + nb - len(obj.s.b))
+                            obj.s.b[pos:pos + nb] = raw
+                        return None
+                    if name == 'write' and len(vals) == 2 and isinstance(vals[1], int):
+                        obj.s.b += self.mem_bytes(vals[0], vals[1]) if vals[1] else b''
+                        return None
+                    if name == 'write' and len(vals) == 1 and isinstance(vals[0], (Str, Lit)):
+                        obj.s.b += bytes(vals[0].b) if isinstance(vals[0], Str) else vals[0].cstr()
+                        return None
+                    if name == 'extend_to' and len(vals) in (1, 2) and isinstance(vals[0], int):
+                        if len(obj.s.b) < vals[0]:
+                            obj.s.b += bytes([(vals[1] if len(vals) == 2 else 0) & 0xFF]) * (vals[0] - len(obj.s.b))
+                        return None
+                    if name == 'extend_by' and len(vals) in (1, 2) and isinstance(vals[0], int):
+                        obj.s.b += bytes([(vals[1] if len(vals) == 2 else 0) & 0xFF]) * vals[0]
+                        return None
+                    if name == 'size':
+                        return len(obj.s.b)
+                    if name == 'str':
+                        return obj.s
+                    if name == 'reset':
+                        obj.s.b = bytearray()
+                        return None
+                    raise Undecided('StringWriter::%s' % name)
                 if isinstance(obj, VecL):
                     vals = [self.ev(a, env, depth) for a in args if a.get('kind') != 'CXXDefaultArgExpr']
                     if name in ('push_back', 'emplace_back') and len(vals) == 1:
@@ -1043,6 +1253,24 @@ class PEval:
                 st.pos += cnt
                 self.reads = getattr(self, 'reads', []) + [cnt]
                 return None
+        if name in ('memcpy', 'memmove') and len(args) == 3:
+            cnt = self.ev(args[2], env, depth)
+            if not isinstance(cnt, int):
+                raise Undecided('memcpy size')
+            src = self.addr_bytes_source(args[1], env, depth)
+            data = self.mem_bytes(src, cnt)
+            self.store_bytes(args[0], data, env, depth)
+            return None
+        if name == 'memset' and len(args) == 3:
+            val, cnt = self.ev(args[1], env, depth), self.ev(args[2], env, depth)
+            if isinstance(val, int) and isinstance(cnt, int):
+                self.store_bytes(args[0], bytes([val & 0xFF]) * cnt, env, depth)
+                return None
+        if name in ('__builtin_bswap16', '__builtin_bswap32', '__builtin_bswap64') and len(args) == 1:
+            v = self.ev(args[0], env, depth)
+            if isinstance(v, int):
+                nb = int(name[-2:]) // 8
+                return int.from_bytes((v & ((1 << (8 * nb)) - 1)).to_bytes(nb, 'little'), 'big')
         if name == 'make_pair' and len(args) == 2:
             vs = [self.ev(a, env, depth) for a in args]
             return ('pair',) + tuple(Str(v.b) if isinstance(v, Str) else v for v in vs)
@@ -1325,6 +1553,31 @@ class PEval:
             frame.setdefault('__this__', self.lookup(env, '__this__'))
         except KeyError:
             pass
+        if fd.get('kind') == 'CXXConstructorDecl':
+            for ci in kids(fd):
+                if ci.get('kind') != 'CXXCtorInitializer':
+                    continue
+                ie = [c for c in kids(ci) if c.get('kind')]
+                if ci.get('delegatingInit') and ie and strip(ie[0]).get('kind') == 'CXXConstructExpr':
+                    ce = strip(ie[0])
+                    want_t = (ce.get('ctorType') or {}).get('qualType')
+                    cls_name = fd.get('name')
+                    tgt = None
+                    for u_ in self.units:
+                        for g_ in u_.functions:
+                            if g_.get('kind') == 'CXXConstructorDecl' and g_.get('name') == cls_name and g_ is not fd and body_of(g_) is not None and (g_.get('type') or {}).get('qualType') == want_t:
+                                tgt = g_
+                    if tgt is None:
+                        raise Undecided('delegated constructor not found')
+                    self.call_function(tgt, [c for c in kids(ce) if c.get('kind') and c.get('kind') != 'CXXDefaultArgExpr'], frame, depth + 1)
+                elif ci.get('anyInit') and ie:
+                    this_ = frame.get('__this__')
+                    if isinstance(this_, Rec):
+                        this_.f[ci['anyInit'].get('name')] = self.ev(ie[0], frame, depth)
+                    else:
+                        raise Undecided('member initialiser')
+                else:
+                    raise Undecided('constructor initialiser')
         try:
             self.run([body_of(fd)], frame, depth + 1)
         except _Return as r:
@@ -1498,7 +1751,23 @@ class PEval:
                         continue
                     init = [c for c in kids(vd) if c.get('kind') and not c['kind'].endswith('Attr')]
                     t = dtype(vd) or ''
-                    if init and t.replace('const ', '').startswith(('std::vector<', 'std::deque<')) and strip(init[-1]).get('kind') == 'CXXConstructExpr' and not [c for c in kids(strip(init[-1])) if c.get('kind')]:
+                    m_arr = re.match(r'^(.+?)\[(\d+)\]$', t.replace('const ', ''))
+                    if init and m_arr and strip(init[-1]).get('kind') == 'InitListExpr' and self.elem_info(m_arr.group(1)):
+                        ei_ = self.elem_info(m_arr.group(1))
+                        il_ = strip(init[-1])
+                        els_ = [c for c in (il_.get('array_filler') and kids(il_) or kids(il_)) if c.get('kind') and c.get('kind') != 'ImplicitValueInitExpr']
+                        vals_ = [self.ev(c, env, depth) for c in els_]
+                        if not all(isinstance(x_, int) for x_ in vals_):
+                            raise Undecided('array initialiser')
+                        vals_ += [0] * (int(m_arr.group(2)) - len(vals_))
+                        if ei_[0] == 1:
+                            v = Str(bytes(x_ & 0xFF for x_ in vals_))
+                            v.fixed = True
+                        else:
+                            v = Arr(vals_, ei_[0], ei_[2])
+                    elif init and t.replace('phosg::', '').replace('const ', '') == 'StringWriter' and strip(init[-1]).get('kind') == 'CXXConstructExpr':
+                        v = SW()
+                    elif init and t.replace('const ', '').startswith(('std::vector<', 'std::deque<')) and strip(init[-1]).get('kind') == 'CXXConstructExpr' and not [c for c in kids(strip(init[-1])) if c.get('kind')]:
                         v = VecL()
                     elif init and t.replace('const ', '').startswith(('std::vector<', 'std::deque<')) and strip(init[-1]).get('kind') == 'CXXConstructExpr' and len([c for c in kids(strip(init[-1])) if c.get('kind') and c.get('kind') != 'CXXDefaultArgExpr']) == 2:
                         a_ = [self.ev(c, env, depth) for c in kids(strip(init[-1])) if c.get('kind') and c.get('kind') != 'CXXDefaultArgExpr']
@@ -1515,6 +1784,11 @@ class PEval:
                             v = Str(v.b)
                     elif t.replace('const ', '').startswith(('std::vector<', 'std::deque<')):
                         v = VecL()
+                    elif re.match(r'^(.+?)\[(\d+)\]$', t) and self.elem_info(re.match(r'^(.+?)\[(\d+)\]$', t).group(1)) and self.elem_info(re.match(r'^(.+?)\[(\d+)\]$', t).group(1))[0] > 1:
+                        ei_ = self.elem_info(re.match(r'^(.+?)\[(\d+)\]$', t).group(1))
+                        v = Arr([0] * int(re.match(r'^(.+?)\[(\d+)\]$', t).group(2)), ei_[0], ei_[2])
+                    elif t.replace('phosg::', '') == 'StringWriter':
+                        v = SW()
                     elif re.match(r'^(?:unsigned |signed )?char\[\d+\]$', t) or re.match(r'^u?int8_t\[\d+\]$', t):
                         v = Str(bytes(int(re.search(r'\[(\d+)\]', t).group(1))))
                         v.fixed = True
